@@ -575,3 +575,53 @@ func verifStubMkdirAll(p string, perm os.FileMode) error {
 }
 
 func verifStubLstat(name string) (os.FileInfo, error) { return verifStubStat(name) }
+
+// C13: a flush whose Write failed must not be taken as done — the next flush site writes the whole set again.
+func verifHarnessC13FlushAfterFailedWrite() {
+	verifEnvReset()
+	client := &verifClient{}
+	cache := &verifFlakyCache{}
+	s := verifSymStore(param("names"), client, cache)
+	assume(verifStoreInv(s))
+	// step 1: a poll installs something while the cache is unwritable
+	updates := map[string]*api.SecretValue{}
+	mapEachP(s.active.m, func(name string, _ *cachedSecret, present bool) {
+		mapPutIf(updates, name, &api.SecretValue{Value: nondetSeq("upd.val"), Version: api.SecretVersion(nondetU32("upd.ver"))}, and(present, nondetBool("upd.p")))
+	})
+	cache.failing = true
+	err := s.applyUpdates(updates)
+	if len(updates) > 0 {
+		assert("failed-flush-reported", err != nil)
+	}
+	// step 2: the cache works again; the poller shuts down (no further change in between)
+	cache.failing = false
+	ctx := &verifCtx{tag: "poller", cancelled: true}
+	tick := &verifTicker{}
+	s.newTicker = func(time.Duration) Ticker { return tick }
+	done := make(chan struct{})
+	s.run(ctx, time.Hour, done)
+	assert("shutdown-flush-writes-after-an-earlier-failure", cache.writes == 1)
+	if cache.writes == 1 {
+		var got map[string]*cachedSecret
+		assert("cache-doc-decodes", jsonBlobAs(cache.content, &got))
+		assert("cache-holds-active-set", verifSameCached(got, s.active.m))
+	}
+	reach("end")
+}
+
+type verifFlakyCache struct {
+	content []byte
+	failing bool
+	writes  int
+}
+
+func (c *verifFlakyCache) Write(data []byte) error {
+	if c.failing {
+		return verifErrInjected
+	}
+	c.content = append([]byte(nil), data...)
+	c.writes++
+	return nil
+}
+
+func (c *verifFlakyCache) Read() ([]byte, error) { return c.content, nil }
